@@ -230,6 +230,7 @@ func (p *Program) verifyFunc(t *target) (vc *VC, rep *FuncReport) {
 		// named results shadow parameters of the same name (cannot happen in Go) — nothing to do
 	}
 	post := x.specEnv(final, entrySnap, names, c.PkgPath)
+	post.pos = body.Rbrace // top-level locals are visible in ensures: their value at the return (unconstrained where not yet declared)
 	x.evalLets(post, c)
 	for i, en := range c.Ensures {
 		conj := splitConj(en.Expr)
